@@ -717,6 +717,50 @@ class SessionSim(Sim):
                     break
             if n and reach and key in reach:
                 self.probe('paths-on-cycle')
+        # the same stored entity answers the same whatever route produced the handle:
+        # by identifier, by enumeration, or by word-form search (exact / after normalisation)
+        queries = []
+        for x in w.words()[:4]:
+            lem = str(x.lemma())
+            queries += [lem, lem.upper(), lem.lower(), lem.title()]
+        for q in dict.fromkeys(queries):
+            for ss in w.synsets(q):
+                key = observe.ekey(ss)
+                if key not in exp['synsets']:
+                    continue
+                want = {r['target'] for r in rels_of('synsets', key, 'synsets')}
+                got = {observe.ekey(t) for t in ss.get_related()}
+                if got != want:
+                    raise self.v('handle-route', 'a synset found through a word-form search '
+                                 'answers get_related() differently from the same synset '
+                                 'obtained otherwise', {'cfg': ctx['cfg'], 'query': q,
+                                                        'synset': key, 'observed': sorted(got),
+                                                        'expected': sorted(want)})
+                self.probe('handle-by-form-search')
+            for sn in w.senses(q):
+                key = observe.ekey(sn)
+                if key not in exp['senses']:
+                    continue
+                want = {r['target'] for r in rels_of('senses', key, 'senses')}
+                got = {observe.ekey(t) for t in sn.get_related()}
+                want2 = {r['target'] for r in rels_of('senses', key, 'synsets')}
+                got2 = {observe.ekey(t) for t in sn.get_related_synsets('*')}
+                if got != want or got2 != want2:
+                    raise self.v('handle-route', 'a sense found through a word-form search '
+                                 'answers relation queries differently from the same sense '
+                                 'obtained otherwise', {'cfg': ctx['cfg'], 'query': q,
+                                                        'sense': key})
+            for x in w.words(q):
+                key = observe.ekey(x)
+                full = m.image(S, relations=False, default_mode=default)
+                if key not in full['words']:
+                    continue
+                d = compare.diff(full['words'][key]['senses'],
+                                 [observe.ekey(t) for t in x.senses()])
+                if d:
+                    raise self.v('handle-route', 'a word found through a word-form search '
+                                 'reports other senses than the same word obtained otherwise',
+                                 {'cfg': ctx['cfg'], 'query': q, 'word': key, 'diff': d[0][2]})
         for s in w.senses():
             key = observe.ekey(s)
             rs = rels_of('senses', key, 'senses')
@@ -882,6 +926,30 @@ class SessionSim(Sim):
                                  {'cfg': cfg, 'E': E, 'synset': key, 'ili': m.ili_of(key),
                                   'observed': got, 'expected_own': own_t,
                                   'expected_borrowed': [r['target'] for r in bor]})
+                if bor and not args:
+                    # handles RETURNED by a borrowed relation keep the configuration of the
+                    # Wordnet they came from: their own relations follow the same rule
+                    for t in ss.get_related()[:6]:
+                        if t.id == INFERRED:
+                            continue
+                        tk = observe.ekey(t)
+                        if tk not in own_img['synsets']:
+                            continue
+                        t_own = [r['target'] for r in
+                                 own_img['synsets'][tk]['relations']['synsets'].items]
+                        t_scope = ([x for x in m.family(tk.split('|')[0]) if x in m.installed]
+                                   if default else S)
+                        t_bor = m.expanded_relations(tk, t_scope, E, None)
+                        want2 = {canon(x) for x in t_own} | {canon(r['target']) for r in t_bor}
+                        got2 = {canon(tkey(x)) for x in t.get_related()}
+                        if got2 != want2:
+                            raise self.v('expand-second-hop', 'a synset returned by a relation '
+                                         'under expand lexicons answers get_related() '
+                                         'differently from the same synset fetched from the '
+                                         'Wordnet', {'cfg': cfg, 'E': E, 'via': key,
+                                                     'synset': tk, 'observed': sorted(got2),
+                                                     'expected': sorted(want2)})
+                        self.probe('second-hop')
                 if bor:
                     self.probe('borrowed-relations')
                     if any(isinstance(r['target'], dict) for r in bor):
